@@ -64,3 +64,40 @@ pub fn ghost_ord(y: i64, m: i64, d: i64) -> i64 { crate::refcal::ordinal(y, m, d
 pub fn sd_jd_ghost(s: &SolarDay) -> JulianDay {
   JulianDay::from_julian_day(ghost_ord(s.get_year() as i64, s.get_month() as i64, s.get_day() as i64) as f64 - 0.5)
 }
+
+// ---- ghost SolarDay::next --------------------------------------------------------------------------------------
+// Stand-in for `<SolarDay as Tyme>::next(n)`: records n and returns an arbitrary valid date.  That the real function
+// returns exactly the date n civil days later is 01.c/01.d/01.g; harnesses that use this stand-in only need *which*
+// n is passed and that the result is used unchanged.
+#[cfg(kani)]
+pub static mut GN_CALLS: usize = 0;
+#[cfg(kani)]
+pub static mut GN_ARG: i64 = 0;
+#[cfg(kani)]
+pub static mut GN_RES: (i64, i64, i64) = (0, 0, 0);
+
+#[cfg(kani)]
+pub fn sd_next_ghost(_s: &SolarDay, n: isize) -> SolarDay {
+  let (y, m, d): (i64, i64, i64) = (kani::any(), kani::any(), kani::any());
+  kani::assume(refcal::valid(y, m, d));
+  unsafe {
+    GN_CALLS += 1;
+    GN_ARG = n as i64;
+    GN_RES = (y, m, d);
+  }
+  SolarDay::from_ymd(y as isize, m as usize, d as usize)
+}
+
+/// (days handed to SolarDay::next, date it returned).  `zero_step`: next(0) does not call SolarDay::next at all.
+#[cfg(kani)]
+pub fn ghost_next(from: (i64, i64, i64), _to: (i64, i64, i64), zero_step: bool) -> (i64, (i64, i64, i64)) {
+  unsafe {
+    if zero_step { assert!(GN_CALLS == 0); return (0, from); }
+    assert!(GN_CALLS == 1);
+    (GN_ARG, GN_RES)
+  }
+}
+#[cfg(not(kani))]
+pub fn ghost_next(from: (i64, i64, i64), to: (i64, i64, i64), _zero_step: bool) -> (i64, (i64, i64, i64)) {
+  (crate::refcal::ordinal(to.0, to.1, to.2) - crate::refcal::ordinal(from.0, from.1, from.2), to)
+}
